@@ -633,9 +633,12 @@ func genTreeProp(prop string) genFunc {
 	return func(r *R, n int, tier string, out *Out) {
 		o := validTreeOpts()
 		o.Stress = true
+		big := r.bigTrees(o)
 		for i := 0; i < n; i++ {
 			var v *V
 			switch {
+			case i < len(big):
+				v = big[i]
 			case i%11 == 3:
 				// single code point strings as value and key
 				c := r.rune_()
@@ -654,7 +657,14 @@ func genTreeProp(prop string) genFunc {
 			if prop == "C16" {
 				indents = []int{pickOf(r, []int{-1, 11, -5, 100, 12, 255, 256, 261, 266, 512, 65536, 65541, -256, -250, -65536}), 0, pickOf(r, []int{1, 2, 3, 4}), pickOf(r, []int{5, 7, 10, 10})}
 			}
-			out.emit(treeCase(prop, v, indents, nil))
+			c := treeCase(prop, v, indents, nil)
+			if i < len(big) {
+				// the large shapes are judged by the property's predicates on the implementation only (round trip, encoding/json,
+				// re-indentation): evaluating the serialiser/parser/layout models on them costs tens of seconds per run
+				c.Coq = ""
+				c.Tags = append(c.Tags, "large-shape-predicates-only")
+			}
+			out.emit(c)
 		}
 	}
 }
@@ -731,10 +741,21 @@ var numSpellings = []string{"0", "-0", "1", "-1", "10", "123", "9223372036854775
 	"123456789012345678901234567890", "0.5", "-0.25", "1.0", "0.10", "1e2", "1E2", "1e+2", "1E-2", "-1.5e10", "1.7976931348623157e308", "5e-324", "2.2250738585072014e-308",
 	"0e0", "0.0", "-0.0", "1e-400", "123.456e-7", "4.9e-324", "100000000000000000000", "0E+0", "3.0e0", "2147483648", "-2147483649", "4294967296", "1e300", "1e-300", "0.1e1"}
 
+// the characters that have a short escape, spelled with \u instead (upper- and lower-case hex)
+var uSpellings = []string{`\u0022`, `\u005c`, `\u005C`, `\u002f`, `\u002F`, `\u0008`, `\u000c`, `\u000C`, `\u000a`, `\u000A`, `\u000d`, `\u000D`, `\u0009`, `\u0000`, `\u001f`, `\u007f`, `\u0020`}
+
 func (r *R) jsonStringLiteral() string {
 	var b strings.Builder
 	b.WriteByte('"')
 	n := r.Intn(7)
+	if r.chance(0.12) {
+		for k := 1 + r.Intn(3); k > 0; k-- {
+			if r.chance(0.3) {
+				b.WriteByte(byte('a' + r.Intn(26)))
+			}
+			b.WriteString(pickOf(r, uSpellings))
+		}
+	}
 	if r.chance(0.1) {
 		n = 0
 	}
